@@ -250,7 +250,17 @@ def run(ck):
         made = [r[1] for r in registry if r[0] == "create"]
         # the registry accumulates over re-executions: look at the last creation(s) of this path
         ip = made[-1] if made else None
-        ok = ip is not None and not ip.kw and [a.name for a in ip.axes] == ["pexit_log_e_nu", "pexit_beta_rad"]
+        # effective settings: scipy's defaults (method linear, bounds_error True) -- left implicit or spelled out; with bounds_error True the
+        # fill value is never used, so whatever is passed for it does not matter
+        def effective(kw):
+            kw = dict(kw or {})
+            meth = kw.pop("method", "linear")
+            be = kw.pop("bounds_error", True)
+            kw.pop("fill_value", None)
+            be_true = be is True or (isinstance(be, (bool, np.bool_)) and bool(be))
+            return meth == "linear" and be_true and not kw
+
+        ok = ip is not None and effective(ip.kw) and [a.name for a in ip.axes] == ["pexit_log_e_nu", "pexit_beta_rad"]
         ck.direct("%s/call.interpolator%s" % (qn, tag), ok, "pre", "symbolic-execution(call-site)",
                   clause="the interpolator is built on (log_e_nu, beta_rad) in the table's axis order with scipy's default bounds_error (out-of-range energies raise)",
                   note="" if ok else "axes %s kwargs %s" % ([getattr(a, "name", a) for a in ip.axes] if ip else None, ip.kw if ip else None),
